@@ -29,6 +29,7 @@ def load_variants(pids):
         if pids and pid not in pids:
             continue
         mod = importlib.import_module("selftest.variants." + fn[:-3])
+        out.append({"pid": pid, "name": "baseline-unchanged-tree", "expect": "silent", "edits": []})
         for v in mod.VARIANTS:
             v = dict(v)
             v["pid"] = pid
